@@ -123,27 +123,33 @@ Record lut_case := {
 Definition apply_order (names : list bytes) (ord : list nat) : list bytes :=
   map (fun i => nth i names []) ord.
 
-Definition lut_agree (c : lut_case) : bool :=
-  obs_list_eqb (map (fun ord => model_obs (c_bo c) (c_cpu c) (c_m c) (c_names c) (apply_order (c_names c) ord)) (c_orders c))
-               (c_obs c)
-  && forallb (obs_eqb (model_obs (c_bo c) (other (c_cpu c)) (c_m c) (c_names c) (c_names c))) (c_obs_be c).
+(* the model's tables: one per insertion order on this CPU, and the one for a CPU of the other byte order *)
+Definition model_tables (c : lut_case) : list obs :=
+  map (fun ord => model_obs (c_bo c) (c_cpu c) (c_m c) (c_names c) (apply_order (c_names c) ord)) (c_orders c).
+Definition model_other_cpu (c : lut_case) : obs :=
+  model_obs (c_bo c) (other (c_cpu c)) (c_m c) (c_names c) (c_names c).
+
+Definition lut_agree_with (ms : list obs) (mo : obs) (c : lut_case) : bool :=
+  obs_list_eqb ms (c_obs c) && forallb (obs_eqb mo) (c_obs_be c).
+Definition lut_agree (c : lut_case) : bool := lut_agree_with (model_tables c) (model_other_cpu c) c.
 
 (* The oracle.  Domain: prime table sizes (the only ones Felix configures; see c33_sizes_prime).
-   The output of the same code on a CPU of the other byte order cannot be observed on this host unless the
-   harness managed the big-endian build (c_obs_be); it is therefore also predicted by the model with the
-   byte-order identifier the source really uses (the model is validated on this host's byte order by the
-   agreement half of check_case). *)
+   complete + balanced + order-independent are judged on the implementation's own output (c_obs).
+   The cross-CPU clause: the output of the same code on a CPU of the other byte order cannot be observed on this
+   host unless the harness managed a big-endian build (c_obs_be, compared with the real output when present); it is
+   otherwise predicted by the model with the byte-order identifier the source really names: the model's table for
+   this CPU (first insertion order) must equal the model's table for the other CPU.  (The model is tied to the
+   code on this host's byte order by the agreement half of check_case.) *)
+Definition cross_cpu_ok (ms : list obs) (mo : obs) (c : lut_case) : bool :=
+  match ms with [] => true | m0 :: _ => obs_eqb m0 mo end
+  && match c_obs c with [] => true | o :: _ => forallb (obs_eqb o) (c_obs_be c) end.
+
+Definition ok_lut_same_cpu (c : lut_case) : bool :=
+  forallb (ok_table (c_m c) (c_names c)) (c_obs c) && all_equal (c_obs c).
+
 Definition ok_lut_case (cross_cpu : bool) (c : lut_case) : bool :=
   if is_prime (c_m c) then
-    forallb (ok_table (c_m c) (c_names c)) (c_obs c)
-    && all_equal (c_obs c)
-    && (negb cross_cpu ||
-        match c_obs c with
-        | [] => true
-        | o :: _ =>
-            forallb (obs_eqb o) (c_obs_be c)
-            && obs_eqb o (model_obs (c_bo c) (other (c_cpu c)) (c_m c) (c_names c) (c_names c))
-        end)
+    ok_lut_same_cpu c && (negb cross_cpu || cross_cpu_ok (model_tables c) (model_other_cpu c) c)
   else true.
 
 (* table sizes: pairs (BPFMaglevMaxEndpointsPerService, observed BPFLUTSizeMaglev()) *)
@@ -171,7 +177,12 @@ Inductive case :=
 (* cross_cpu = false leaves out the byte-order clause; used only to classify a failing case *)
 Definition check_case_with (cross_cpu : bool) (env : size_env) (c : case) : bool * bool :=
   match c with
-  | CLut c => (lut_agree c, ok_lut_case cross_cpu c)
+  | CLut c =>
+      (* the model tables are computed once and shared by both halves *)
+      let ms := model_tables c in
+      let mo := model_other_cpu c in
+      (lut_agree_with ms mo c,
+       if is_prime (c_m c) then ok_lut_same_cpu c && (negb cross_cpu || cross_cpu_ok ms mo c) else true)
   | CSizes l =>
       (let sz := lut_size (e_table env) (e_limit env) (e_factor env) in
        forallb (fun p => size_eqb (sz (fst p)) (snd p)) l,
